@@ -5,7 +5,8 @@ From Coq Require Import List Arith ZArith Ring Lia Reals RealField.
 From TLV Require Import Base.Shape Base.PyList Base.Tensor Base.BigSum Base.Ops Model.Base Model.Factorized
   Proofs.FactorizedProofs Proofs.FactorizedProofs2 Proofs.FactorizedProofs3 Proofs.FactorizedProofs4
   Proofs.FactorizedProofs5 Proofs.FactorizedProofs6 Proofs.FactorizedProofs7 Proofs.FactorizedProofs8
-  Proofs.FactorizedProofs9 Proofs.FactorizedProofs10 Proofs.FactorizedProofs11 Proofs.FactorizedProofs12 Proofs.FactorizedProofs13 Proofs.FactorizedProofs14.
+  Proofs.FactorizedProofs9 Proofs.FactorizedProofs10 Proofs.FactorizedProofs11 Proofs.FactorizedProofs12 Proofs.FactorizedProofs13 Proofs.FactorizedProofs14
+  Proofs.BaseProofs6 Proofs.FactorizedProofs15 Proofs.FactorizedProofs16.
 Import ListNotations.
 
 Definition is_ring {F : Type} (Op : fops F) : Prop :=
@@ -127,8 +128,9 @@ Print Assumptions C03_validate_tr_iff.
 (* non-vacuity for the train / ring hypotheses: a 2-core train with inner rank 2, closed as a ring of boundary rank 2 *)
 Example C03_tt_hyps : tt_cores Z 1 [mk [1; 2; 2] [1; 2; 3; 4]%Z; mk [2; 3; 1] [1; 0; 2; -1; 1; 1]%Z] [2; 3] 1.
 Proof. econstructor; [reflexivity | lia |]. econstructor; [reflexivity | lia | constructor]. Qed.
-Example C03_tr_hyps : tt_cores Z 2 [mk [2; 1; 3] [1; 2; 3; 4; 5; 6]%Z] [1] 3 /\ shape (mk [3; 2; 2] (repeat 1%Z 12)) = [3; 2; 2].
-Proof. split; [econstructor; [reflexivity | lia | constructor] | reflexivity]. Qed.
+Example C03_tr_hyps : tt_cores Z 2 [mk [2; 1; 3] [1; 2; 3; 4; 5; 6]%Z] [1] 3 /\ shape (mk [3; 2; 2] (repeat 1%Z 12)) = [3; 2; 2] /\
+  0 < 2 /\ 0 < prod ([1] ++ [2]).
+Proof. split; [econstructor; [reflexivity | lia | constructor] | repeat split; simpl; lia]. Qed.
 
 (* ------------------------------------------------------------------ Tucker *)
 (* tucker_to_tensor(core, factors, skip_factor=skip): entry idx = sum over all core indices js of core[js] * prod_l U_l[idx_l, js_l]
@@ -158,8 +160,15 @@ Theorem C03_validate_tucker_iff : forall (F : Type) (core : tensor F) (fs : list
 Proof. exact validate_tucker_iff. Qed.
 Print Assumptions C03_validate_tucker_iff.
 
-Example C03_tucker_hyps : tk_shapes Z 0 (Some 1) [mk [3; 2] [1; 2; 3; 4; 5; 6]%Z; mk [7; 7] []] [3; 2] [2; 2].
-Proof. constructor; [reflexivity|]. constructor; [reflexivity | constructor]. Qed.
+(* all four hypotheses of C03_tucker_to_tensor jointly (skip_factor = 1: the skipped factor is never looked at), and an instance
+   without skip accepted by the validator (hypotheses of C03_tucker_validated) *)
+Example C03_tucker_hyps :
+  let core := mk [2; 2] [1; 0; -1; 2]%Z in
+  tk_shapes Z 0 (Some 1) [mk [3; 2] [1; 2; 3; 4; 5; 6]%Z; mk [7; 7] []] [3; 2] (shape core) /\ wf core /\ 0 < prod (shape core) /\ 0 < prod [3; 2] /\
+  validate_tucker core [mk [3; 2] [1; 2; 3; 4; 5; 6]%Z; mk [1; 2] [1; 1]%Z] = Ok ([3; 1], [2; 2]).
+Proof.
+  cbv zeta. split; [constructor; [reflexivity|]; constructor; [reflexivity | constructor]|]. repeat split; try reflexivity; simpl; lia.
+Qed.
 
 (* ------------------------------------------------------------------ PARAFAC2 *)
 (* parafac2_to_slice(i): entry (j, k) = sum_r (P_i B)[j, r] * (A[i, r] * w_r) * C[k, r]  (all sizes, weights or not) *)
@@ -454,3 +463,63 @@ Theorem C03_tt_setitem_stale_refuted :
     cho_shape o' = [2] /\ tt_to_tensor Zops (cho_cores o') = Ok t /\ shape t = [3].
 Proof. exact tt_setitem_stale_refuted. Qed.
 Print Assumptions C03_tt_setitem_stale_refuted.
+
+(* ------------------------------------------------------------------ naturality in the carrier ("no entry is rounded or re-typed") *)
+(* every reconstruction commutes with every entry-wise ring homomorphism h (0, 1, +, * preserved; no ring axiom needed): converting
+   the stored arrays exactly (int -> float, float32 -> float64, real -> complex, Z -> R ...) and reconstructing equals reconstructing
+   and converting the result -- also Err is preserved both ways, and the validator's answer does not depend on the entries.
+   (_validate_parafac2_tensor compares entries and is not covered; the PARAFAC2 reconstructions are, for any validator answer v.) *)
+Theorem C03_reconstructions_natural : forall (F G : Type) (OpF : fops F) (OpG : fops G) (h : F -> G), ring_hom OpF OpG h ->
+  let tm := tmap h in let tms := map (tmap h) in
+  (* CP, tuple input (the validator looks at shapes only) and any cached validation v (wrapper objects) *)
+  (forall w fs, validate_cp (omap tm w) (tms fs) = validate_cp w fs) /\
+  (forall v w fs mask, cp_to_tensor_from OpG v (omap tm w) (tms fs) (omap tm mask) = rmap tm (cp_to_tensor_from OpF v w fs mask)) /\
+  (forall v w fs m, cp_to_unfolded_from OpG v (omap tm w) (tms fs) m = rmap tm (cp_to_unfolded_from OpF v w fs m)) /\
+  (forall v w fs, cp_to_vec_from OpG v (omap tm w) (tms fs) = rmap tm (cp_to_vec_from OpF v w fs)) /\
+  (forall v w fs, cp_normsq_from OpG v (omap tm w) (tms fs) = rmap h (cp_normsq_from OpF v w fs)) /\
+  (forall w fs mask, cp_to_tensor OpG (omap tm w) (tms fs) (omap tm mask) = rmap tm (cp_to_tensor OpF w fs mask)) /\
+  (* Tucker *)
+  (forall core fs skip tr, tucker_to_tensor OpG (tm core) (tms fs) skip tr = rmap tm (tucker_to_tensor OpF core fs skip tr)) /\
+  (* tensor train, tensor ring, TT-matrix (core and einsum routes) *)
+  (forall cs, tt_to_tensor OpG (tms cs) = rmap tm (tt_to_tensor OpF cs)) /\
+  (forall cs, tr_to_tensor OpG (tms cs) = rmap tm (tr_to_tensor OpF cs)) /\
+  (forall cs, ttm_to_tensor OpG (tms cs) = rmap tm (ttm_to_tensor OpF cs)) /\
+  (forall cs, ttm_to_tensor_einsum OpG (tms cs) = rmap tm (ttm_to_tensor_einsum OpF cs)) /\
+  (* PARAFAC2, for whatever answer v the validator gave *)
+  (forall v w fs ps i, parafac2_to_slice_from OpG v (omap tm w) (tms fs) (tms ps) i = rmap tm (parafac2_to_slice_from OpF v w fs ps i)) /\
+  (forall v w fs ps, parafac2_to_slices_from OpG v (omap tm w) (tms fs) (tms ps) = rmap tms (parafac2_to_slices_from OpF v w fs ps)) /\
+  (forall v w fs ps, parafac2_to_tensor_from OpG v (omap tm w) (tms fs) (tms ps) = rmap tm (parafac2_to_tensor_from OpF v w fs ps)).
+Proof. exact reconstructions_natural. Qed.
+Print Assumptions C03_reconstructions_natural.
+(* the hypothesis is satisfiable: the embedding of the integers into the reals *)
+Example C03_ring_hom_Z_R : ring_hom Zops Rops IZR.
+Proof. repeat split; [apply plus_IZR | apply mult_IZR]. Qed.
+
+(* ------------------------------------------------------------------ both tenalg backends: CP and Tucker *)
+(* under the einsum backend cp_tensor.py runs with the einsum khatri_rao and tucker_tensor.py with the einsum multi_mode_dot (each
+   ONE np.einsum call, modelled by its sum-of-products semantics).  For every accepted (weights, factors), every mask, every mode and
+   every cached validation v the einsum routes return what the core routes return; same for Tucker with skip_factor and
+   transpose_factors (sizes >= 1) *)
+Theorem C03_cp_einsum_eq_core : forall (F : Type) (Op : fops F), is_ring Op ->
+  forall (w : option (tensor F)) (fs : list (tensor F)) (shp : list nat) (R : nat),
+  validate_cp w fs = Ok (shp, R) ->
+  (forall v mask, cp_to_tensor_from_einsum Op v w fs mask = cp_to_tensor_from Op v w fs mask) /\
+  (forall v m, cp_to_unfolded_from_einsum Op v w fs m = cp_to_unfolded_from Op v w fs m) /\
+  (forall v, cp_to_vec_from_einsum Op v w fs = cp_to_vec_from Op v w fs).
+Proof. exact cp_einsum_eq_core. Qed.
+Print Assumptions C03_cp_einsum_eq_core.
+
+Theorem C03_tucker_einsum_eq_core : forall (F : Type) (Op : fops F), is_ring Op ->
+  forall (core : tensor F) (fs : list (tensor F)) (ns : list nat) (skip : option nat),
+  tk_shapes F 0 skip fs ns (shape core) -> wf core -> 0 < prod (shape core) -> 0 < prod ns ->
+  tucker_to_tensor_einsum Op core fs skip false = tucker_to_tensor Op core fs skip false.
+Proof. exact tucker_einsum_eq_core. Qed.
+Print Assumptions C03_tucker_einsum_eq_core.
+
+Theorem C03_tucker_einsum_eq_core_transposed : forall (F : Type) (Op : fops F), is_ring Op ->
+  forall (core : tensor F) (fs : list (tensor F)) (ns : list nat) (skip : option nat),
+  Forall (fun M => ndim M = 2) fs -> tk_shapes F 0 skip (map (mT Op) fs) ns (shape core) -> wf core ->
+  0 < prod (shape core) -> 0 < prod ns ->
+  tucker_to_tensor_einsum Op core fs skip true = tucker_to_tensor Op core fs skip true.
+Proof. exact tucker_einsum_eq_core_transposed. Qed.
+Print Assumptions C03_tucker_einsum_eq_core_transposed.
